@@ -6,7 +6,7 @@ from pyvc import spec as SP
 from pyvc.sym import Sym
 
 META = {
-    "explanation": "what chempy itself contributes to the claim is proved: _result_is_sane is exactly (all x >= 0) and (all x <= elemental bound*(1+rtol)) with the two warnings; root/_solve hand the solver x0 (default: the initial concentrations) and params = initial concentrations followed by the equilibrium constants, and report sanity of the RETURNED x against the SAME initial concentrations; the precipitation switches fire iff Q(1+rtol) < K (resp. Q > K(1+rtol)) on the dissolved state and switch back iff the solid drops below `small`; dissolved() zeroes the solid and moves every other species by -c_solid/nu_solid*net (so element totals are kept for a balanced reaction); each formulation's pre/post processors are inverse on the admissible domain. Soundness and convergence of the delegated root finders are outside any contract: bounded run-time contract (with the recorded findings F-C08/F-C08b).",
+    "explanation": "what chempy itself contributes to the claim is proved: _result_is_sane is exactly (all x >= 0) and (all x <= elemental bound*(1+rtol)) and warns (in whatever words) exactly when it rejects; root/_solve hand the solver x0 (default: the initial concentrations) and params = initial concentrations followed by the equilibrium constants, and report sanity of the RETURNED x against the SAME initial concentrations; the precipitation switches fire when the ion product of the dissolved state exceeds Ksp and do not when it is below (a relative band of 1e-9 around Ksp left open, Ksp over the decades down to 1e-18, with the constant the equilibrium has at that moment) and switch back iff the solid drops below `small`; for a given presence pattern every formulation solves one equation per equilibrium: [ions] = Ksp for a present solid, [solid] = small for an absent one, whichever way and multiple the salt is written and wherever it stands among the reactions (equations compared as equations, not as literal rows); dissolved() zeroes the solid and moves every other species by -c_solid/nu_solid*net (so element totals are kept for a balanced reaction); each formulation's pre/post processors are inverse on the admissible domain. Soundness and convergence of the delegated root finders are outside any contract: bounded run-time contract (with the recorded findings F-C08/F-C08b); data obligations run the property itself on hand-picked witnesses with a real solubility product (1.8e-10) under the three ways of building the solver, logarithmic formulation.",
     "trusted_base": ["pyneqsys solvers are external: solve(x0, params) is modelled as returning arbitrary (x, {'success': b})", "numpy object arrays (5.2)", "contract of upper_conc_bounds (C15)"],
     "not_decided": ["success and sane => Q = K and conservation (depends on the external least-squares solver; known findings F-C08, F-C08b)", ">= 19/20 success rate, agreement with brentq: bounded only"],
     "assumptions": ["system shapes fixed per harness"],
@@ -42,9 +42,21 @@ def _(v):
     neg = SP.disj([xi < 0 for xi in x])
     much = SP.disj([xi > u * (1 + 1e-9) for xi, u in zip(x, ub)])
     v.prove("sane_iff_nonnegative_and_within_elemental_bounds", SP.iff(r, SP.conj([SP.neg(neg), SP.neg(much)])))
-    msgs = [m for _, m in v.events("warning")]
-    v.prove("negative_warning_iff_negative", SP.iff(any("Negative" in m for m in msgs), neg))
-    v.prove("too_much_warning_iff_exceeding", SP.iff(any("Too much" in m for m in msgs), much))
+    # the caller is TOLD when a composition is rejected and is not bothered when it is accepted. The wording (and number) of the warnings is no part
+    # of the property, so neither is matched here (second review, 9e): each kind of defect alone is enough for a warning, a sane state gives none
+    n_warn = len(v.events("warning"))
+    v.prove("negative_warning_iff_negative", SP.conj([SP.implies(neg, n_warn >= 1), SP.implies(r, n_warn == 0)]))
+    v.prove("too_much_warning_iff_exceeding", SP.conj([SP.implies(much, n_warn >= 1), SP.implies(r, n_warn == 0)]))
+
+
+def _same_vector(a, b):
+    """value equality of two concentration vectors (a copy / np.asarray of the solver's vector is as good as the object itself)"""
+    try:
+        if len(a) != len(b):
+            return False
+        return SP.conj([ai == bi for ai, bi in zip(a, b)])
+    except TypeError:
+        return False
 
 
 class _FakeNeqSys:
@@ -80,8 +92,8 @@ def _plumbing(method):
         (x0, params, kw), = fake.calls
         v.prove("solver_gets_initial_state_then_constants", list(params) == list(c0) + [float(k) for k in es.eq_constants()])
         v.prove("default_start_is_initial_state", list(x0) == list(c0))
-        v.prove("returns_solver_x_and_info", rx is x and sol["success"] is success)
-        v.prove("sanity_of_returned_x_against_same_initial_state", sane == "SANE-FLAG" and tag["args"][1] is x and list(tag["args"][0]) == list(c0))
+        v.prove("returns_solver_x_and_info", SP.conj([_same_vector(rx, x), SP.iff(sol["success"], success)]))
+        v.prove("sanity_of_returned_x_against_same_initial_state", SP.conj([sane == "SANE-FLAG", _same_vector(tag["args"][1], x), list(tag["args"][0]) == list(c0)]))
         warned = any("failed" in m for _, m in v.events("warning"))
         v.prove("failure_warning_iff_solver_reports_failure", SP.iff(warned, SP.neg(success)))
     return _
@@ -113,7 +125,7 @@ def _warm_start(method):
         (x0, params, kw), = fake.calls
         v.prove("solver_started_from_the_guess", list(x0) == list(guess))
         v.prove("parameters_are_the_initial_state_not_the_guess", list(params) == list(c0) + [float(k) for k in es.eq_constants()])
-        v.prove("sanity_against_the_initial_state", list(tag["args"][0]) == list(c0) and tag["args"][1] is x)
+        v.prove("sanity_against_the_initial_state", SP.conj([list(tag["args"][0]) == list(c0), _same_vector(tag["args"][1], x)]))
     return _
 
 
@@ -147,6 +159,14 @@ def _(v):
     v.prove("element_and_charge_totals_kept", SP.conj([sum(B[r][j] * d[j] for j in range(3)) == sum(B[r][j] * c[j] for j in range(3)) for r in range(len(keys))]))
 
 
+def _switch_band(fires, ion_product, Ksp, rel=1e-9):
+    """the switch 'let the solid appear' written from the property: it MUST fire when the ion product of the fully dissolved state exceeds Ksp
+    and MUST NOT fire when it is below. How close to Ksp the decision flips (the code: a relative 1e-14 on Q vs K) is no part of the property and
+    is not copied (second review, 9e): only a RELATIVE band of 1e-9 around Ksp is left open, which a comparison of logarithms or another small
+    relative tolerance also meets -- while an absolute tolerance fails for small Ksp, and a stale or inverted comparison fails everywhere"""
+    return SP.conj([SP.implies(ion_product > Ksp * (1 + rel), fires), SP.implies(ion_product < Ksp * (1 - rel), SP.neg(fires))])
+
+
 @harness("C08", "precipitation_switches", functions=[EQ + ":EqSystem._fw_cond_factory", EQ + ":EqSystem._fw_cond_factory.<locals>.fw_cond", EQ + ":EqSystem._bw_cond_factory",
                                                      EQ + ":EqSystem._bw_cond_factory.<locals>.bw_cond"], kind="shape-bounded", div_mode="assume", samples=0)
 def _(v):
@@ -158,20 +178,17 @@ def _(v):
     bw = es._bw_cond_factory(0, 1e-30)
     ion_product = (c[0] + c[2]) * (c[1] + c[2])      # of the fully dissolved state
     r = v.call(fw, x, None)
-    if which:   # NaCl(s) = Na+ + Cl-  (K = Ksp): precipitate while the ion product exceeds Ksp
-        v.prove("forward_iff_ion_product_exceeds_Ksp", SP.iff(r, ion_product > K * (1 + 1e-14)))
-    else:       # Na+ + Cl- = NaCl(s) (K = 1/Ksp)
-        v.prove("forward_iff_ion_product_exceeds_Ksp", SP.iff(r, (1 / ion_product) * (1 + 1e-14) < 1 / K))
+    # NaCl(s) = Na+ + Cl- (K = Ksp) or Na+ + Cl- = NaCl(s) (K = 1/Ksp): precipitate while the ion product exceeds Ksp
+    v.prove_nl("forward_iff_ion_product_exceeds_Ksp", _switch_band(r, ion_product, K))
     small = 1e-30
     v.prove("backward_iff_solid_gone", SP.iff(v.call(bw, x, None), SP.neg(c[2] < small)))
-    # the condition object is kept by the solver object (get_neqsys) and re-used: it must decide with the constant the equilibrium has NOW
-    K2 = v.real("Ksp_changed_later", lo=1e-3, hi=50)
+    # the condition object is kept by the solver object (get_neqsys) and re-used: it must decide with the constant the equilibrium has NOW.
+    # The new constant ranges over the decades of real solubility products (1e-18 .. ; the concentrations go down to 1e-6, so both sides of
+    # every Ksp are reached): the band is RELATIVE to Ksp for all of them
+    K2 = v.real("Ksp_changed_later", lo=1e-18, hi=50)
     es.rxns[0].param = K2 if which else 1 / K2
     r2 = v.call(fw, x, None)
-    if which:
-        v.prove("forward_condition_follows_a_changed_constant", SP.iff(r2, ion_product > K2 * (1 + 1e-14)))
-    else:
-        v.prove("forward_condition_follows_a_changed_constant", SP.iff(r2, (1 / ion_product) * (1 + 1e-14) < 1 / K2))
+    v.prove_nl("forward_condition_follows_a_changed_constant", _switch_band(r2, ion_product, K2))
 
 
 def _processors(name):
@@ -278,17 +295,30 @@ def _(v):
     subs = OrderedDict((k, Species.from_formula(k)) for k in ["H+", "e-", "H2"])
     es = EqSystem([Equilibrium({"H+": 2, "e-": 2}, {"H2": 1}, 10.0)], subs)
     c0 = {"H+": 1.0, "e-": 1.0, "H2": 0.5}
-    ub = es.upper_conc_bounds(c0)
-    v.prove("electron_has_no_elemental_bound", ub[1] == float("inf") and ub[0] == 2.0 and ub[2] == 1.0, detail=repr(ub))
+    def sane(state):        # an exception of the code under test is a wrong answer to every question asked below
+        try:
+            return es._result_is_sane(c0, np.array(state))
+        except Exception as ex:
+            return ex
+    try:
+        ub = list(es.upper_conc_bounds(c0))
+    except Exception as ex:
+        ub = [float("nan")] * 3 + [ex]
+    # by hand: 2 mol/L of H in all (1 as H+, 2*0.5 as H2) -> at most 2 of H+, 1 of H2. The electron holds no element; what the contract needs is
+    # only that its bound is no SMALLER than what the states reachable from c0 hold (charge balance: [e-] = [H+] <= 2) -- an infinite bound (the
+    # code) and a finite one derived from the charge balance are both right (second review, 9e), a bound below 2 would reject genuine states
+    v.prove("electron_has_no_elemental_bound", ub[1] >= 2.0 and ub[0] == 2.0 and ub[2] == 1.0, detail=repr(ub))
     with warnings.catch_warnings():
         warnings.simplefilter("ignore")
-        v.prove("negative_unbounded_species_is_not_sane", es._result_is_sane(c0, np.array([1.0, -0.87, 0.5])) is False)
-        v.prove("negative_bounded_species_is_not_sane", es._result_is_sane(c0, np.array([-1e-3, 1.0, 0.5])) is False)
-        v.prove("above_the_bound_is_not_sane", es._result_is_sane(c0, np.array([2.1, 1.0, 0.5])) is False)
-        v.prove("admissible_state_is_sane", es._result_is_sane(c0, np.array([0.5, 0.5, 0.75])) is True and es._result_is_sane(c0, np.array([0.0, 1e9, 1.0])) is True)
-        v.prove("nan_is_not_sane", es._result_is_sane(c0, np.array([np.nan, 1.0, 0.5])) is False and es._result_is_sane(c0, np.array([np.nan] * 3)) is False)
+        v.prove("negative_unbounded_species_is_not_sane", sane([1.0, -0.87, 0.5]) is False)
+        v.prove("negative_bounded_species_is_not_sane", sane([-1e-3, 1.0, 0.5]) is False)
+        v.prove("above_the_bound_is_not_sane", sane([2.1, 1.0, 0.5]) is False)
+        # the states reachable from c0 along 2 H+ + 2 e- = H2 are (1 - 2 xi, 1 - 2 xi, 0.5 + xi), -0.5 <= xi <= 0.5: an inner one and both ends
+        # (the ends sit exactly ON the bounds: a bound is inclusive)
+        v.prove("admissible_state_is_sane", all(sane(st) is True for st in ([0.5, 0.5, 0.75], [0.0, 0.0, 1.0], [2.0, 2.0, 0.0], [1.0, 1.0, 0.5])))
+        v.prove("nan_is_not_sane", sane([np.nan, 1.0, 0.5]) is False and sane([np.nan] * 3) is False)
         # an infinite concentration is no composition either, also for the species without elemental bound (inf > inf*(1+rtol) is False)
-        v.prove("infinity_is_not_sane", es._result_is_sane(c0, np.array([1.0, np.inf, 0.5])) is False and es._result_is_sane(c0, np.array([np.inf, 1.0, 0.5])) is False)
+        v.prove("infinity_is_not_sane", sane([1.0, np.inf, 0.5]) is False and sane([np.inf, 1.0, 0.5]) is False)
 
 
 @harness("C08", "single_equilibrium.solve_equilibrium", functions=["chempy._equilibrium:solve_equilibrium", "chempy._equilibrium:_solve_equilibrium_coord", "chempy._equilibrium:_get_rc_interval",
@@ -300,7 +330,15 @@ def _(v):
     from chempy._equilibrium import solve_equilibrium
     nus = [v.int("nu%d" % i, lo=-3, hi=3) for i in range(3)]
     v.assume(SP.conj([nu != 0 for nu in nus]))
-    cs = [v.real("c%d" % i, lo=0, hi=100) for i in range(4)]
+    cs = [v.real("c%d" % i, lo=0, hi=100) for i in range(3)]
+    spectator = v.real("c_spectator", lo=0, hi=100)
+    # the species that does not take part (coefficient 0) may stand anywhere in the vectors, not only at the end (second review, 7: a mask applied
+    # as a length -- stoich[:len(mask)] -- is right only for a trailing spectator)
+    slot = v.choice("spectator_slot", [0, 1, 3])
+    at = [i for i in range(4) if i != slot]            # where the three reacting species stand
+    full_cs, full_nus = list(cs), list(nus)
+    full_cs.insert(slot, spectator)
+    full_nus.insert(slot, 0)
     K = v.real("K", lo=1e-6, hi=1e6)
     seen = {}
 
@@ -312,19 +350,24 @@ def _(v):
         v_.assume(res == 0)
         return rc
     v.contract(scipy.optimize.brentq, "brentq", None, brentq_contract)
-    out = v.run(solve_equilibrium, cs, nus + [0], K)
+    out = v.run(solve_equilibrium, full_cs, full_nus, K)
     if not out.returned:
         v.prove("refusal_is_a_ValueError", out.raised(ValueError))
+        # ... and only a state that cannot move in either direction is refused (second review, 8; the same condition as for the bracket alone,
+        # here through the masking of the spectator): forwards needs every reactant, backwards every product, to be there
+        can_fwd = SP.conj([SP.implies(nu < 0, c > 0) for nu, c in zip(nus, cs)] + [SP.disj([nu < 0 for nu in nus])])
+        can_bwd = SP.conj([SP.implies(nu > 0, c > 0) for nu, c in zip(nus, cs)] + [SP.disj([nu > 0 for nu in nus])])
+        v.prove("refused_only_when_no_direction_can_move", SP.neg(SP.disj([can_fwd, can_bwd])))
         return
     x = out.value
     rc = seen["rc"]
-    v.prove("state_moved_along_the_stoichiometry", SP.conj([v.eq(x[i], cs[i] + rc * nus[i]) for i in range(3)]))
-    v.prove("spectator_untouched", v.eq(x[3], cs[3]))
+    v.prove("state_moved_along_the_stoichiometry", SP.conj([len(x) == 4] + [v.eq(x[at[i]], cs[i] + rc * nus[i]) for i in range(3)]))
+    v.prove("spectator_untouched", v.eq(x[slot], spectator))
     for i in range(3):
-        v.prove("concentration_%d_non_negative" % i, x[i] >= 0)
+        v.prove("concentration_%d_non_negative" % i, x[at[i]] >= 0)
     q = 1
     for i in range(3):
-        q = q * SP.spow(x[i], nus[i])
+        q = q * SP.spow(x[at[i]], nus[i])
     v.prove_identity("quotient_equals_constant", seen["res"], K - q)
 
 
@@ -349,19 +392,44 @@ def _(v):
     ion_product = (c[2] + c[1]) * (c[0] + 2 * c[1]) * (c[0] + 2 * c[1])
     v.assume(SP.conj([ion_product > 0]))
     r = v.call(fw, _arr(c), None)
-    if which:
-        v.prove("precipitates_iff_ion_product_of_the_dissolved_state_exceeds_Ksp", SP.iff(r, ion_product > 3.9e-11 * (1 + 1e-14)))
-    else:
-        v.prove("precipitates_iff_ion_product_of_the_dissolved_state_exceeds_Ksp", SP.iff(r, (1 / ion_product) * (1 + 1e-14) < 1 / 3.9e-11))
+    v.prove_nl("precipitates_iff_ion_product_of_the_dissolved_state_exceeds_Ksp", _switch_band(r, ion_product, 3.9e-11))
 
 
-@harness("C08", "row_reduced_equations_with_precipitates", functions=[EQ + ":EqSystem.stoichs_constants", EQ + ":EqSystem.eq_constants", "chempy.reactionsystem:ReactionSystem.stoichs", "chempy._eqsys:_NumSys._get_A_ks"],
+def _same_equations(A, ks, WA, Wks):
+    """do the equations  prod_j c_j**A[i][j] = ks[i]  and the hand-written  prod_j c_j**WA[i][j] = Wks[i]  say the same? Decided exactly for
+    integer exponents and positive rational constants: in logarithms both are linear systems [A | ln k]; ln k = sum_p e_p ln p over the primes p
+    of the constants, and the ln p are linearly independent over the rationals, so the systems are equivalent iff the rational matrices
+    [A | e_2 e_3 e_5 ...] have the same row space (rank of each == rank of both stacked). Nothing about the ORDER of the equations, their sign
+    (formation or dissolution direction), a common multiple of a row, or a row reduction enters -- but [solid]**n = small differs from
+    [solid] = small, and 1/[solid] = small too. Returns (rank, rank of the hand-written, rank stacked)"""
+    import sympy
+
+    def rat(k):
+        k = sympy.nsimplify(k) if isinstance(k, int) else k
+        if not (isinstance(k, sympy.Rational) and k > 0):
+            raise ValueError("constant %r is not a positive exact rational" % (k,))
+        return k
+    ks, Wks = [rat(k) for k in ks], [rat(k) for k in Wks]
+    primes = sorted(set(p for k in ks + Wks for part in (k.p, k.q) for p in sympy.factorint(part)))
+
+    def aug(rows, consts):
+        out = []
+        for row, k in zip(rows, consts):
+            fp, fq = sympy.factorint(k.p), sympy.factorint(k.q)
+            out.append([sympy.Rational(int(a)) if int(a) == a else sympy.nsimplify(a) for a in row] + [sympy.Integer(fp.get(p, 0) - fq.get(p, 0)) for p in primes])
+        return sympy.Matrix(out)
+    M, W = aug([list(r) for r in (A.tolist() if hasattr(A, "tolist") else A)], ks), aug(WA, Wks)
+    return M.rank(), W.rank(), M.col_join(W).rank()
+
+
+@harness("C08", "row_reduced_equations_with_precipitates", functions=[EQ + ":EqSystem.stoichs_constants", EQ + ":EqSystem.eq_constants", "chempy.reactionsystem:ReactionSystem.stoichs"],
          kind="data")
 def _(v):
     """the optional row reduction of the equilibrium equations (rref_equil=True) must describe the SAME equations as the plain form for every
     assumed set of absent solids: 'A ln c = ln K' with, for an absent solid, the row '[solid] = small' -- so that a state claimed with the option on
     still meets the solubility products. Decided exactly (sympy rationals and symbolic logarithms): the augmented matrices [A | ln K] of the two
-    forms have the same row space, for a two-salt system with a common ion plus a homogeneous equilibrium, all four presence patterns"""
+    forms have the same row space, for a two-salt system with a common ion plus a homogeneous equilibrium, all four presence patterns; and the
+    plain form says what the property says (hand-written equations, compared as equations: _same_equations), whichever way the salt is written"""
     import sympy
     from chempy.chemistry import Equilibrium, Species
     from chempy.equilibria import EqSystem
@@ -370,6 +438,13 @@ def _(v):
     eqsys = EqSystem([Equilibrium({"NaCl": 1}, {"Na+": 1, "Cl-": 1}, sympy.Integer(37)), Equilibrium({"AgCl": 1}, {"Ag+": 1, "Cl-": 1}, sympy.Rational(1, 5000)),
                       Equilibrium({"Ag+": 1, "NH3": 1}, {"AgNH3+": 1}, sympy.Integer(2000))], subs)
     small = sympy.Rational(1, 10 ** 9)
+
+    def hand(npr, n_eq):
+        """the property, written by hand over (Na+, Cl-, Ag+, NH3, AgNH3+, NaCl, AgCl): a solid that is present meets its solubility product
+        ([Na+][Cl-] = 37, [Ag+][Cl-] = 1/5000), an absent one has [solid] = small; [AgNH3+] = 2000 [Ag+][NH3]"""
+        rows = [[0, 0, 0, 0, 0, 1, 0] if 0 in npr else [1, 1, 0, 0, 0, 0, 0], [0, 0, 0, 0, 0, 0, 1] if 1 in npr else [0, 1, 1, 0, 0, 0, 0], [0, 0, -1, -1, 1, 0, 0]]
+        consts = [small if 0 in npr else sympy.Integer(37), small if 1 in npr else sympy.Rational(1, 5000), sympy.Integer(2000)]
+        return rows[:n_eq], consts[:n_eq]
     bad = []
     for npr in ((), (0,), (1,), (0, 1)):
         try:
@@ -378,47 +453,193 @@ def _(v):
             A1, k1 = eqsys.stoichs_constants(ks, True, backend=sympy, non_precip_rids=npr)
             M0 = sympy.Matrix([list(r) + [sympy.log(k)] for r, k in zip(A0.tolist(), k0)])
             M1 = sympy.Matrix([list(r) + [sympy.expand_log(sympy.log(k), force=True)] for r, k in zip(A1, k1)])
-            want_rows = [[0, 0, 0, 0, 0, 1, 0] if 0 in npr else [1, 1, 0, 0, 0, 0, 0], [0, 0, 0, 0, 0, 0, 1] if 1 in npr else [0, 1, 1, 0, 0, 0, 0], [0, 0, -1, -1, 1, 0, 0]]
-            if [list(map(int, r)) for r in A0.tolist()] != want_rows or list(k0) != [small if 0 in npr else 37, small if 1 in npr else sympy.Rational(1, 5000), 2000]:
-                bad.append((npr, "plain form", A0.tolist(), k0))
+            ranks = _same_equations(A0, k0, *hand(npr, 3))
+            if ranks != (3, 3, 3):
+                bad.append((npr, "plain form", ranks, A0.tolist(), k0))
             r0, r1, r01 = M0.rank(), M1.rank(), M0.col_join(M1).rank()
             if not (r0 == r1 == r01 == 3):
                 bad.append((npr, "row spaces differ", r0, r1, r01, M1.tolist()))
         except Exception as ex:
             bad.append((npr, repr(ex)[:200]))
     v.prove("same_equations_for_every_presence_pattern", not bad, detail=repr(bad[:2]))
-    # the same salt written in the FORMATION direction (solid on the product side, K = 1/Ksp): the equation for the absent solid is again
-    # [solid]**|nu| = small (a positive power of the solid's concentration), not its reciprocal
-    form = EqSystem([Equilibrium({"Na+": 1, "Cl-": 1}, {"NaCl": 1}, sympy.Rational(1, 37)), Equilibrium({"Ag+": 2, "Cl-": 2}, {"AgCl": 2}, sympy.Integer(5000) ** 2)], subs)
-    rows = {npr: [list(map(int, r)) for r in form.stoichs(npr).tolist()] for npr in ((), (0,), (1,), (0, 1))}
-    # 'absent' means [solid] = small whatever multiple of the reaction is written: the exponent of the solid in that equation is 1, not the
-    # solid's coefficient ([solid]**3 = small would leave small**(1/3) ~ 6e-6 M of 'absent' solid)
-    want = {(): [[-1, -1, 0, 0, 0, 0, 0], [0, -2, -2, 0, 0, 0, 0]], (0,): [[0, 0, 0, 0, 0, 1, 0], [0, -2, -2, 0, 0, 0, 0]], (1,): [[-1, -1, 0, 0, 0, 0, 0], [0, 0, 0, 0, 0, 0, 1]],
-            (0, 1): [[0, 0, 0, 0, 0, 1, 0], [0, 0, 0, 0, 0, 0, 1]]}
-    v.prove("absent_solid_equation_in_the_formation_direction", rows == want, detail=repr({k: r for k, r in rows.items() if r != want[k]}))
-    diss3 = EqSystem([Equilibrium({"NaCl": 3}, {"Na+": 3, "Cl-": 3}, sympy.Integer(37) ** 3)], subs)
-    v.prove("absent_solid_equation_does_not_depend_on_the_multiple_written", [list(map(int, r)) for r in diss3.stoichs((0,)).tolist()] == [[0, 0, 0, 0, 0, 1, 0]]
-            and [list(map(int, r)) for r in diss3.stoichs(()).tolist()] == [[3, 3, 0, 0, 0, 0, 0]], detail=repr(diss3.stoichs((0,)).tolist()))
+    # the same salts written in the FORMATION direction (solid on the product side, K = 1/Ksp), one of them doubled: the SAME equations again. In
+    # particular the equation for an absent solid is [solid] = small: not its reciprocal (1/[solid] = small has no solution near zero), and not
+    # [solid]**|nu| = small -- 'absent' means absent whatever multiple of the reaction is written ([solid]**3 = small would leave
+    # small**(1/3) ~ 6e-6 M of 'absent' solid)
+    bad = []
+    try:
+        form = EqSystem([Equilibrium({"Na+": 1, "Cl-": 1}, {"NaCl": 1}, sympy.Rational(1, 37)), Equilibrium({"Ag+": 2, "Cl-": 2}, {"AgCl": 2}, sympy.Integer(5000) ** 2)], subs)
+        for npr in ((), (0,), (1,), (0, 1)):
+            A, k = form.stoichs_constants(form.eq_constants(npr, None, small), False, backend=sympy, non_precip_rids=npr)
+            ranks = _same_equations(A, k, *hand(npr, 2))
+            if ranks != (2, 2, 2):
+                bad.append((npr, ranks, A.tolist(), k))
+    except Exception as ex:
+        bad.append(repr(ex)[:200])
+    v.prove("absent_solid_equation_in_the_formation_direction", not bad, detail=repr(bad[:2]))
+    bad = []
+    try:
+        for make in (lambda: Equilibrium({"NaCl": 3}, {"Na+": 3, "Cl-": 3}, sympy.Integer(37) ** 3), lambda: Equilibrium({"Na+": 3, "Cl-": 3}, {"NaCl": 3}, sympy.Rational(1, 37 ** 3))):
+            x3 = EqSystem([make()], subs)
+            for npr in ((), (0,)):
+                A, k = x3.stoichs_constants(x3.eq_constants(npr, None, small), False, backend=sympy, non_precip_rids=npr)
+                ranks = _same_equations(A, k, *hand(npr, 1))
+                if ranks != (1, 1, 1):
+                    bad.append((npr, ranks, A.tolist(), k))
+    except Exception as ex:
+        bad.append(repr(ex)[:200])
+    v.prove("absent_solid_equation_does_not_depend_on_the_multiple_written", not bad, detail=repr(bad[:2]))
+
+
+def _water_and_salt(formation, m=1, Ksp=1.8e-10):
+    """water listed FIRST (so the index of the salt among the reactions, 1, differs from its index among the phase-transfer reactions, 0), then
+    AgCl with its real solubility product, written as dissolution (K = Ksp**m) or formation (K = Ksp**-m) with every coefficient m"""
+    from chempy.chemistry import Equilibrium, Species
+    from chempy.equilibria import EqSystem
+    from collections import OrderedDict
+    names = ["H2O", "H+", "OH-", "Ag+", "Cl-", "AgCl(s)"]
+    subs = OrderedDict((k, Species.from_formula(k)) for k in names)
+    Kw = 1e-14 / 55.5
+    salt = Equilibrium({"Ag+": m, "Cl-": m}, {"AgCl(s)": m}, Ksp ** -m) if formation else Equilibrium({"AgCl(s)": m}, {"Ag+": m, "Cl-": m}, Ksp ** m)
+    return EqSystem([Equilibrium({"H2O": 1}, {"H+": 1, "OH-": 1}, Kw), salt], subs), names, Kw, Ksp
+
+
+@harness("C08", "equations_for_a_presence_pattern", functions=["chempy._eqsys:_NumSys._get_A_ks", EQ + ":EqSystem.non_precip_rids", EQ + ":EqSystem.phase_transfer_reaction_idxs",
+                                                               EQ + ":EqSystem.eq_constants", EQ + ":EqSystem.stoichs_constants"], kind="data")
+def _(v):
+    """the step from the switches to the equations (second review, 4): a formulation built for the pattern 'solid present' / 'solid absent' solves
+    one equation per equilibrium -- water's own and, for the salt, [Ag+][Cl-] = Ksp when present resp. [AgCl] = small (the formulation's own
+    negligible amount) when absent -- for every formulation, either direction and multiple of the salt, with a homogeneous equilibrium listed
+    before the salt. Equations are compared as equations: a row and its constant may be raised to any common non-zero power"""
+    import chempy._eqsys as E
+    from math import gcd
+    from functools import reduce
+
+    def normal(A, ks):
+        """each equation prod c**row = k with the exponents made coprime and the first one positive (both sides raised to 1/(+-gcd))"""
+        out = []
+        for row, k in zip((A.tolist() if hasattr(A, "tolist") else A), ks):
+            row = [int(a) for a in row]
+            g = reduce(gcd, [abs(a) for a in row if a])
+            g = g if [a for a in row if a][0] > 0 else -g
+            if k == 0 and g < 0:
+                raise ValueError("equation %r = 0 has no solution" % (row,))
+            out.append((tuple(a // g for a in row), float(k) ** (1.0 / g) if k != 0 else 0.0))
+        return out
+
+    def same(got, want):
+        got = list(got)
+        for row, k in want:
+            hit = [i for i, (r2, k2) in enumerate(got) if r2 == row and (k2 == k or (k and abs(k2 / k - 1) < 1e-12))]
+            if not hit:
+                return False
+            del got[hit[0]]
+        return not got
+    bad, rids = [], []
+    for formation in (False, True):
+        for m in (1, 2):
+            try:
+                es, names, Kw, Ksp = _water_and_salt(formation, m)
+                rids.append((sorted(es.non_precip_rids((False,))), sorted(es.non_precip_rids((True,)))))
+                params = [float(r.param) for r in es.rxns]
+                for name in ("NumSysLin", "NumSysLog", "NumSysSquare"):
+                    NS = getattr(E, name)
+                    for present in (True, False):
+                        got = normal(*NS(es, precipitates=(present,), backend=math)._get_A_ks(params))
+                        want = [((1, -1, -1, 0, 0, 0), 1 / Kw), ((0, 0, 0, 1, 1, 0), Ksp) if present else ((0, 0, 0, 0, 0, 1), float(NS.small))]
+                        if not same(got, want):
+                            bad.append((formation, m, name, present, got))
+            except Exception as ex:
+                bad.append((formation, m, repr(ex)[:200]))
+    v.prove("absent_patterns_select_the_salt_not_the_water", rids == [([1], [])] * 4, detail=repr(rids))
+    v.prove("one_equation_per_equilibrium_Ksp_when_present_small_when_absent", not bad, detail=repr(bad[:3]))
+
+
+def _genuine(x, c0, Kw, Ksp):
+    """the property for (H2O, H+, OH-, Ag+, Cl-, AgCl(s)), written by hand with the tolerances of the sampled stand-in: returns the complaints"""
+    out = []
+    x = [float(xi) for xi in x]
+    if not all(math.isfinite(xi) and xi >= -1e-12 for xi in x):
+        return ["negative or not finite: %r" % (x,)]
+    hand = {"H": [2, 1, 1, 0, 0, 0], "O": [1, 0, 1, 0, 0, 0], "Ag": [0, 0, 0, 1, 0, 1], "Cl": [0, 0, 0, 0, 1, 1], "charge": [0, 1, -1, 1, -1, 0]}
+    for k, row in hand.items():
+        if abs(sum(w * (a - b) for w, a, b in zip(row, x, c0))) > 1e-6 * sum(abs(w) * (abs(a) + b) for w, a, b in zip(row, x, c0)) + 1e-12:
+            out.append("total of %s not kept" % k)
+    if min(x[:5]) <= 0:
+        return out + ["a dissolved species is exactly zero (Q = K cannot hold): %r" % (x,)]
+    if abs(math.log(x[1] * x[2] / x[0] / Kw)) > 1e-5:
+        out.append("water: Q/K = %.6g" % (x[1] * x[2] / x[0] / Kw))
+    ratio = x[3] * x[4] / Ksp
+    if x[5] > 1e-10 and abs(math.log(ratio)) > 1e-5:
+        out.append("solid present (%.3g) with ion product %.6g Ksp" % (x[5], ratio))
+    if x[5] <= 1e-10 and ratio > 1 + 1e-5:
+        out.append("no solid with ion product %.6g Ksp" % ratio)
+    return out
+
+
+@harness("C08", "solver_chains_on_a_real_salt", functions=[EQ + ":EqSystem.root", EQ + ":EqSystem.get_neqsys", EQ + ":EqSystem.get_neqsys_chained_conditional", EQ + ":EqSystem.get_neqsys_conditional_chained",
+                                                           EQ + ":EqSystem.get_neqsys_static_conditions", EQ + ":EqSystem._SymbolicSys_from_NumSys", EQ + ":EqSystem.non_precip_rids",
+                                                           "chempy._eqsys:_NumSys._get_A_ks", "chempy._eqsys:NumSysLog.f"], kind="data")
+def _(v):
+    """the property itself on hand-picked witnesses that the generated systems of the stand-in do not reach (second review, 1, 3, 4, 5): silver
+    chloride with its REAL solubility product 1.8e-10 next to water (listed first), the salt written as dissolution or as formation, with
+    coefficients 1 or 3; initial states in which solid must remain and in which none may; every way of building the solver that root() offers
+    (neqsys_type chained_conditional -- the default --, conditional_chained, and static_conditions told the pattern that is the right one for
+    the case), logarithmic formulation (root's default). Whenever success and sane are claimed the state must be genuine (_genuine); an exception
+    is a complaint too. (The chain (NumSysLog, NumSysLin) of EqSystem.solve is NOT run here: see the report of the second review, item 1)"""
+    import warnings
+    remains = [[0.1, 0.05, 0.0], [0.5, 2.0, 0.0], [0.0, 0.01, 0.2], [1e-3, 1e-3, 0.0]]           # all dissolved: ion product >= 1e-6 >> Ksp
+    dissolves = [[1e-5, 1e-5, 0.0], [2e-6, 1e-6, 3e-6], [3e-6, 0.0, 2e-6], [1e-3, 0.0, 1e-8], [0.01, 1e-9, 5e-9]]   # all dissolved: ion product <= 1e-10 < Ksp
+    bad, claimed = [], {}
+    for formation in (False, True):
+        for m in (1, 3):
+            try:
+                es, names, Kw, Ksp = _water_and_salt(formation, m)
+            except Exception as ex:
+                bad.append((formation, m, repr(ex)[:200]))
+                continue
+            for regime, cases in (("solid_remains", remains), ("solid_dissolves", dissolves)):
+                for how, kw in (("chained_conditional", {}), ("conditional_chained", {}), ("static_conditions", {"precipitates": (regime == "solid_remains",)})):
+                    for c in cases:
+                        c0 = [55.5, 1e-7, 1e-7] + c
+                        try:
+                            with warnings.catch_warnings():
+                                warnings.simplefilter("ignore")
+                                x, sol, sane = es.root(dict(zip(names, c0)), neqsys_type=how, **kw)
+                            if sol["success"] and sane:
+                                claimed[(how, regime)] = claimed.get((how, regime), 0) + 1
+                                why = _genuine(x, c0, Kw, Ksp)
+                                if why:
+                                    bad.append((formation, m, how, c, why))
+                        except Exception as ex:
+                            bad.append((formation, m, how, c, repr(ex)[:120]))
+    v.prove("claimed_states_are_genuine", not bad, detail=repr(bad[:3]))
+    # not vacuous: in both regimes each way of building the solver does claim success for at least half of the 4 x 4 resp. 4 x 5 runs
+    want = {(how, regime): n for how in ("chained_conditional", "conditional_chained", "static_conditions") for regime, n in (("solid_remains", 8), ("solid_dissolves", 10))}
+    v.prove("claims_are_made_in_both_regimes_by_every_chain", all(claimed.get(k, 0) >= n for k, n in want.items()), detail=repr(claimed))
 
 
 @harness("C08", "single_equilibrium.integer_inputs", functions=["chempy._equilibrium:solve_equilibrium"], kind="data")
 def _(v):
     """the single-equilibrium solver for concentrations given as integers (a list of ints, an integer array): the answer is the same as for the
     same numbers as floats -- Q = K, spectators untouched, element totals kept -- not the floats cut back to integers; the caller's array is
-    not written to"""
+    not written to. A + B = C + D with K = 1/2 from (3, 2, 1, 0): (1 + xi) xi = (3 - xi)(2 - xi)/2 gives xi = (sqrt(73) - 7)/2 by hand; the
+    spectator (7, and a second one 9) stands last, or first and in the middle"""
     import numpy as np
     from chempy._equilibrium import solve_equilibrium
-    stoich, K = (-1, -1, 1, 1, 0), 0.5
-    ref = np.asarray(solve_equilibrium([3.0, 2.0, 1.0, 0.0, 7.0], stoich, K), dtype=float)
-    q = lambda c: c[2] * c[3] / (c[0] * c[1])
-    arr = np.array([3, 2, 1, 0, 7])
-    bad = []
-    for label, c0 in (("list_of_ints", [3, 2, 1, 0, 7]), ("tuple_of_ints", (3, 2, 1, 0, 7)), ("int_array", arr)):
-        try:
-            got = np.asarray(solve_equilibrium(c0, stoich, K), dtype=float)
-            if not (np.allclose(got, ref, rtol=1e-12) and abs(q(got) / K - 1) < 1e-6 and got[4] == 7):
-                bad.append((label, got.tolist()))
-        except Exception as ex:
-            bad.append((label, repr(ex)[:80]))
-    v.prove("same_answer_as_for_floats", not bad and abs(q(ref) / K - 1) < 1e-6, detail=repr(bad))
-    v.prove("callers_array_not_written_to", arr.tolist() == [3, 2, 1, 0, 7])
+    K, xi = 0.5, (math.sqrt(73) - 7) / 2
+    layouts = (((-1, -1, 1, 1, 0), [3, 2, 1, 0, 7], [3 - xi, 2 - xi, 1 + xi, xi, 7.0]),
+               ((0, -1, 0, -1, 1, 1), [7, 3, 9, 2, 1, 0], [7.0, 3 - xi, 9.0, 2 - xi, 1 + xi, xi]))
+    bad, arrays = [], []
+    for stoich, ints, hand in layouts:
+        arr = np.array(ints)
+        arrays.append((arr, ints))
+        for label, c0 in (("floats", [float(i) for i in ints]), ("list_of_ints", list(ints)), ("tuple_of_ints", tuple(ints)), ("int_array", arr)):
+            try:
+                got = np.asarray(solve_equilibrium(c0, stoich, K), dtype=float)
+                if not (got.shape == (len(ints),) and np.allclose(got, hand, rtol=1e-9, atol=1e-9) and all(got[i] == ints[i] for i, nu in enumerate(stoich) if nu == 0)):
+                    bad.append((stoich, label, got.tolist()))
+            except Exception as ex:
+                bad.append((stoich, label, repr(ex)[:80]))
+    v.prove("same_answer_as_for_floats", not bad, detail=repr(bad[:3]))
+    v.prove("callers_array_not_written_to", all(arr.tolist() == ints for arr, ints in arrays))
